@@ -30,6 +30,20 @@ CHECKS = {
              '(integer ticks): float rounding of sums is outside the model; generated amounts are dyadic so the '
              'implementation is compared exactly. analyze_transactions fold is modelled by hand.',
         technique='Rocq proof (induction over the transaction list) + translated leaf code + correspondence'),
+    'C03': dict(
+        category='proof',
+        text='A static confinement certificate is regenerated from expr_parser.py on every run (every import, builtin/global call, '
+             'getattr/hasattr site with receiver and name class, attribute called on operand values, ALLOWED_NODES, _eval_ handlers, '
+             'function and string-method tables) and C03/Props.v proves each capability lies inside the confined set and that '
+             'validate_ast accepts a tree iff all its node classes, at any depth, are whitelisted. The implementation is then driven '
+             'with an adversarial expression stream through every entry point (load, transaction and view evaluation, match/let/field/'
+             'tag/transform/variable positions) under sys.addaudithook with deep type checks of values and texts and frame checks; the '
+             'model validate verdict is compared with the loader inside Coq.',
+        design_ref='DESIGN.md §4 C03',
+        note='Trusted: Coq kernel/vm_compute; tools/c03_caps.py (syntactic classification of capability sites); the confined set '
+             'C03/Caps.v is a human-reviewed whitelist; CPython ast.parse and audit events; re/difflib internals. Value-level '
+             'confinement theorems over the evaluator model (coq/theories/Expr) are part of C04/C08; this check does not depend on them.',
+        technique='Rocq proof over a source-extracted capability table + validate model + adversarial differential with audit hook'),
 }
 
 PENDING = {}
